@@ -1,2 +1,68 @@
-From Coq Require Import ZArith List.
-From BT Require Import Model.SetOps.
+(* C10 -- union / intersection / difference compute the mathematical result.
+   Model: Model/SetOps.v (set_operation's walk, operand adaptation, the three
+   module functions); vocabulary: Model/SetOpsSpec.v; proofs: Proofs/SetOpsProofs.v. *)
+From Coq Require Import ZArith List Bool Sorted.
+From BT Require Import Model.SetOps Model.SetOpsSpec Proofs.SetOpsProofs.
+Import ListNotations.
+Open Scope Z_scope.
+
+(* the merge walk with selectors c1/c12/c2 over two strictly ascending streams *)
+Theorem C10_walk : forall (V : Type) (c1 c12 c2 : bool) (f1 f2 : V -> V) (f12 : V -> V -> V)
+    (l1 l2 : list (Z * V)),
+  ssorted (map fst l1) -> ssorted (map fst l2) ->
+  let r := walk V c1 c12 c2 f1 f2 f12 l1 l2 in
+  ssorted (map fst r) /\
+  forall k, In k (map fst r) <->
+    (c1 = true /\ In k (map fst l1) /\ ~ In k (map fst l2)) \/
+    (c12 = true /\ In k (map fst l1) /\ In k (map fst l2)) \/
+    (c2 = true /\ ~ In k (map fst l1) /\ In k (map fst l2)).
+Proof. exact SetOpsProofs.walk_spec. Qed.
+Print Assumptions C10_walk.
+
+(* an arbitrary iterable (unsorted, with repeats) is adapted to a strictly
+   ascending, duplicate-free stream with the same elements *)
+Theorem C10_adapt : forall l : list Z,
+  ssorted (adapt l) /\ forall k, In k (adapt l) <-> In k l.
+Proof. exact SetOpsProofs.adapt_spec. Qed.
+Print Assumptions C10_adapt.
+
+Theorem C10_union : forall a b : operand, wf_operand a -> wf_operand b ->
+  a <> ONone -> b <> ONone ->
+  exists r, m_union a b = SSet r /\ ssorted r /\
+            forall k, In k r <-> In k (okeys a) \/ In k (okeys b).
+Proof. exact SetOpsProofs.union_spec. Qed.
+Print Assumptions C10_union.
+
+Theorem C10_intersection : forall a b : operand, wf_operand a -> wf_operand b ->
+  a <> ONone -> b <> ONone ->
+  exists r, m_intersection a b = SSet r /\ ssorted r /\
+            forall k, In k r <-> In k (okeys a) /\ In k (okeys b).
+Proof. exact SetOpsProofs.intersection_spec. Qed.
+Print Assumptions C10_intersection.
+
+(* difference keeps the first operand's kind and values *)
+Theorem C10_difference : forall a b : operand, wf_operand a -> wf_operand b ->
+  b <> ONone ->
+  (forall l, a = OSet l ->
+     exists r, m_difference a b = SSet r /\ ssorted r /\
+               forall k, In k r <-> In k l /\ ~ In k (okeys b)) /\
+  (forall l, a = OMap l ->
+     exists r, m_difference a b = SMap r /\ ssorted (map fst r) /\
+               forall k v, In (k, v) r <-> In (k, v) l /\ ~ In k (okeys b)).
+Proof. exact SetOpsProofs.difference_spec. Qed.
+Print Assumptions C10_difference.
+
+(* None operands as documented *)
+Theorem C10_none : forall a b : operand,
+  m_union ONone ONone = SNone /\ m_intersection ONone ONone = SNone /\
+  (b <> ONone -> m_union ONone b = SOp2 /\ m_intersection ONone b = SOp2) /\
+  (a <> ONone -> m_union a ONone = SOp1 /\ m_intersection a ONone = SOp1 /\
+                 m_difference a ONone = SOp1) /\
+  m_difference ONone b = SNone.
+Proof. exact SetOpsProofs.none_table. Qed.
+Print Assumptions C10_none.
+
+Example C10_example :
+  m_union (OMap [(1, 10); (4, 40)]) (OIter [9; 4; 9; 2]) = SSet [1; 2; 4; 9] /\
+  m_difference (OMap [(1, 10); (4, 40)]) (OIter [9; 4; 9; 2]) = SMap [(1, 10)].
+Proof. vm_compute. split; reflexivity. Qed.
